@@ -1,6 +1,122 @@
-From Asynkit Require Import Base.Prelude Sched.Model.
-(* placeholder: the C15 theorems land in Sched/ThrowProofs.v *)
-Theorem C15_throw_done_refused :
-  forall s t e, tdone s t = true -> task_throw s t e = (s, RExc (ERuntime rt_task_done)).
-Proof. intros s t e H. unfold task_throw. rewrite H. reflexivity. Qed.
-Print Assumptions C15_throw_done_refused.
+(* C15 - interrupts reach their target exactly once, immediately, and only it:
+   the part at the level of task_throw (Python tasks), over the scheduler model
+   Sched/Model.v.  Proofs: Sched/ThrowProofs.v on top of the C09 invariant.
+
+   Vocabulary (PartTables.v / ThrowProofs.v):
+     InvC qok c s     Inv09 with running task c;  hcnt / ccnt / bo as in Props/C09.v
+     strip_wakeup t x future x with t's wake-up callback filtered out of its callbacks
+     delivered_exn    the exception Task.__step hands to the coroutine: e, unless a cancel()
+                      is pending (_must_cancel), then e if e is a CancelledError else a fresh
+                      CancelledError
+     running_state    the state in which the task's code runs: _must_cancel and _fut_waiter
+                      cleared, current task set *)
+From Coq Require Import QArith Sorting.Permutation.
+From RecordUpdate Require Import RecordUpdate.
+From Asynkit Require Import Base.Prelude Queue.PosPQ Sched.Model Sched.PartTables Sched.PartitionProofs
+     Sched.PartitionSteps Sched.PartitionRun Sched.PartitionFinal Sched.ThrowProofs Props.C09.
+Import RecordSetNotations.
+Open Scope nat_scope.
+
+(* a refused task_throw (RuntimeError) changes nothing; and each refusal case is refused *)
+Theorem C15_refusal_noop :
+  (forall s t e s' x, task_throw s t e = (s', RExc x) -> s' = s) /\
+  (forall s t e, tdone s t = true -> task_throw s t e = (s, RExc (ERuntime rt_task_done))) /\
+  (forall s t e, tdone s t = false -> tkind_ (gett s t) = KC ->
+                 task_throw s t e = (s, RExc (ERuntime rt_ctask))) /\
+  (forall s t e, tdone s t = false -> tkind_ (gett s t) = KPy -> bo s t = None ->
+                 (tmustc (gett s t) = true \/
+                  exists f, twaiter (gett s t) = Some f /\ fcancelled s f = true) ->
+                 task_throw s t e = (s, RExc (ERuntime rt_task_cancelled))) /\
+  (forall s t e, tdone s t = false -> tkind_ (gett s t) = KPy -> bo s t = None ->
+                 tmustc (gett s t) = false ->
+                 (forall f, twaiter (gett s t) = Some f -> fcancelled s f = false) ->
+                 rq_find (ready s) (task_key s t) true = None ->
+                 task_throw s t e = (s, RExc (ERuntime rt_self))) /\
+  (* the running task is always refused *)
+  (forall qok, QSpec qok -> forall s t e, InvC qok (Some t) s ->
+                 exists k, task_throw s t e = (s, RExc (ERuntime k))).
+Proof.
+  split; [exact throw_refused_unchanged|]. split; [exact throw_refuse_done|].
+  split; [exact throw_refuse_ctask|]. split; [exact throw_refuse_cancelling|].
+  split; [exact throw_refuse_self|]. exact throw_current_refused.
+Qed.
+Print Assumptions C15_refusal_noop.
+
+(* an accepted task_throw: t becomes runnable with exactly one handle, the new
+   HStep t (Some e); its waiter is cleared; the future it waited on keeps its state and
+   its other callbacks; every other future, task and table is unchanged; Inv09 holds *)
+Theorem C15_throw_effect :
+  forall qok, QSpec qok -> forall c s t e s' v,
+  InvC qok c s -> task_throw s t e = (s', RVal v) ->
+  let hn := length (handles s) in
+  InvC qok c s' /\ is_cur c t = false /\ tdone s' t = false /\
+  hcnt s' t = 1 /\ bo s' t = None /\ twaiter (gett s' t) = None /\
+  handles s' = handles s ++ [mkH (HStep t (Some e)) false] /\ In hn (rq_items (ready s')) /\
+  (forall g, getf s' g = getf s g \/ (bo s t = Some g /\ getf s' g = strip_wakeup t (getf s g))) /\
+  (forall g, fstate_ (getf s' g) = fstate_ (getf s g)) /\
+  (forall t' g, t' <> t -> ccnt s' t' g = ccnt s t' g) /\
+  (forall g, fdone s' g = false -> ccnt s' t g = 0) /\
+  (forall t', t' <> t -> gett s' t' = gett s t') /\
+  gett s' t = gett s t <| twaiter := None |> /\
+  (forall t', t' <> t -> hcnt s' t' = hcnt s t') /\
+  locks s' = locks s /\ conds s' = conds s /\ events s' = events s /\ blocks s' = blocks s /\
+  timers s' = timers s /\ now s' = now s /\ current s' = current s /\ log s' = log s /\
+  errors s' = errors s.
+Proof. exact throw_effect. Qed.
+Print Assumptions C15_throw_effect.
+
+(* delivery: when that handle is run by run_one, the target's continuation is resumed
+   with RExc (delivered_exn ...) at its suspension point (resume_stack over its library
+   frames, then the user continuation); a task that never started is ended by it *)
+Theorem C15_delivered :
+  (forall s h r t e, rq_popleft (ready s) = Some (h, r) ->
+                     geth s h = mkH (HStep t (Some e)) false ->
+                     run_one s = step_task t (Some e) (s <| ready := r |>)) /\
+  (forall s t e frs k, tdone s t = false -> tcont_ (gett s t) = TSusp frs k ->
+     step_task t (Some e) s =
+     (let '(s1, r) := resume_stack t frs (RExc (delivered_exn s t e)) (running_state s t) in
+      let '(s2, o) := match r with
+                      | LDone rep => exec t (k rep) s1
+                      | LSusp y frs' => (s1, OYield y frs' k)
+                      end in
+      finish_step t s2 o <| current := None |>)) /\
+  (forall s t e c0, tdone s t = false -> tcont_ (gett s t) = TNew c0 ->
+     step_task t (Some e) s =
+     finish_step t (running_state s t) (ODone (RExc (delivered_exn s t e))) <| current := None |>) /\
+  (forall s t e, tmustc (gett s t) = false -> delivered_exn s t e = e) /\
+  (forall s t e, tmustc (gett s t) = true ->
+                 delivered_exn s t e = if is_cancel e then e else ECancelled).
+Proof.
+  split; [exact run_one_step|]. split; [exact step_throw_susp|]. split; [exact step_throw_new|].
+  split; intros s t e H; unfold delivered_exn; rewrite H; reflexivity.
+Qed.
+Print Assumptions C15_delivered.
+
+(* after an accepted throw t's wake-up callback is on no pending future (C15_throw_effect),
+   hence completing any future later creates no handle for t: no second resumption *)
+Theorem C15_no_second_resume :
+  forall qok, QSpec qok -> forall c s t g x s' ok,
+  InvC qok c s -> is_cur c t = false -> t < length (tasks s) -> tdone s t = false ->
+  bo s t = None -> x <> FPending -> fut_finish s g x = (s', ok) -> hcnt s' t = hcnt s t.
+Proof. exact no_second_resume. Qed.
+Print Assumptions C15_no_second_resume.
+
+(* ---- non-vacuity: throwing at the blocked task 0 of the C09 example state ---- *)
+Example C15_example :
+  let s := ex_state in
+  let s' := fst (task_throw s 0 (EUser 1)) in
+  snd (task_throw s 0 (EUser 1)) = RVal 0 /\
+  InvC qok_list None s' /\
+  bo s 0 = Some 1 /\ bo s' 0 = None /\ hcnt s' 0 = 1 /\
+  fcbs (getf s 1) = [CbWakeup 0] /\ fcbs (getf s' 1) = [] /\
+  (* a done task and a C task are refused *)
+  task_throw s 1 (EUser 1) = (s, RExc (ERuntime rt_task_done)) /\
+  task_throw s 2 (EUser 1) = (s, RExc (ERuntime rt_ctask)).
+Proof.
+  cbv zeta. split; [vm_compute; reflexivity|]. split.
+  - destruct (task_throw ex_state 0 (EUser 1)) as [s' r] eqn:E.
+    assert (Hr : r = RVal 0) by (apply (f_equal snd) in E; vm_compute in E; congruence).
+    subst r. simpl.
+    apply (C15_throw_effect qok_list QSpec_list None ex_state 0 (EUser 1) s' 0 (proj1 (proj1 C09_example)) E).
+  - vm_compute. repeat split; reflexivity.
+Qed.
